@@ -7,6 +7,8 @@ import (
 	"sort"
 	"strings"
 	"time"
+	"unicode"
+	"unicode/utf8"
 
 	"verif/harness/core"
 	"verif/harness/gen"
@@ -789,7 +791,13 @@ func runC07(c *core.Ctx) {
 		// R12: a selector is the name as given. X decorated with characters that are syntax in the files (a colon, quotes,
 		// blanks - also ones only Unicode knows as blanks) names no element of this book, so every single-element report
 		// for it is the report for any other name the book does not have
-		if i%3 == 1 && strings.TrimSpace(X) == X {
+		hasLetter := false
+		for _, ch := range X {
+			hasLetter = hasLetter || unicode.IsLetter(ch)
+		}
+		// (names of fewer than three runes or without a letter could be found inside the amounts of a report, where the
+		// comparison below substitutes text)
+		if i%3 == 1 && strings.TrimSpace(X) == X && hasLetter && utf8.RuneCountInString(X) >= 3 {
 			D := []string{X + ":", " " + X, X + "\u00a0", "\"" + X + "\"", X + " ", "\u3000" + X, X + "\t"}[r.Intn(7)]
 			Z := "no-such-element"
 			known := false
